@@ -13,6 +13,24 @@ def programs(tier):
     # task-tree programs exercising "newly created" / spawn-after-cancel tasks
     progs += [p for p in tt_programs(tier) if "late_spawn" in p["label"]
               or "ext_spawn" in p["label"]]
+    # scopes cancelled by their deadline (the clock reaches it while the task is blocked, runnable
+    # or behind a shield)
+    WAIT, CP = ["wait", "g"], ["cp"]
+    for sh in (False, True):
+        for inner in ([WAIT], [CP, WAIT, CP],
+                      [["try", [WAIT], {"cancel": [], "reraise": False}], WAIT]):
+            for after in ([CP], [WAIT, CP]):
+                s2 = ["scope", "S2", {"shield": sh}, inner]
+                s1 = ["scope", "S1", {"deadline": 1}, [CP, s2] + after]
+                main = [["scope", "S0", {}, [s1, CP]], CP]
+                progs.append({"objects": {"g": ["gate"]}, "main": main, "tasks": {},
+                              "env": [["set", "g"]],
+                              "label": f"deadline sh={sh} inner={len(inner)} after={len(after)}"})
+        tasks = {"c0": [WAIT, CP], "c1": [["scope", "T1", {"shield": sh}, [WAIT]], CP, WAIT]}
+        main = [["scope", "S1", {"deadline": 2}, [["tg", "G", [["spawn", "G", "c0"],
+                                                               ["spawn", "G", "c1"], WAIT]]]], CP]
+        progs.append({"objects": {"g": ["gate"]}, "main": main, "tasks": tasks,
+                      "env": [["set", "g"]], "label": f"deadline group sh={sh}"})
     return progs
 
 
